@@ -14,7 +14,7 @@
 (* text folds to prints to a text that means the same (C13).               *)
 (* Each text is printed as a CASE line and parsed by the real crate.       *)
 (***************************************************************************)
-EXTENDS RangeSyntax, TLC, Json, SequencesExt
+EXTENDS RangeText, TLC, Json, SequencesExt
 
 CONSTANTS Mode, Size, Emit,
           CaseOp,       \* "rparse": one text per tree; "concat": the two halves of a pair separately (C02)
@@ -84,6 +84,7 @@ Seconds(f) ==
                           \cup { RangeOf(<< AltOf(<<g, f>>) >>) : g \in Garbage }
                           \cup { RangeOf(<< AltOf(<<f, g>>) >>) : g \in Garbage }
                           \cup { [RangeOf(<< AltOf(<<f, g, b>>) >>) EXCEPT !.alts[1].seps = << <<32, 32>>, <<32>> >>] : g \in Garbage, b \in {x \in PairB : x.pa.pre = <<tagA>>} }
+                          \cup { [RangeOf(<< AltOf(<<f, g, b>>) >>) EXCEPT !.alts[1].seps = << <<9>>, <<9>> >>] : g \in Garbage, b \in {x \in PairB : x.pa.pre = <<tag0>>} }
                           \cup { RangeOf(<< AltOf(<<g>>), AltOf(<<f>>) >>) : g \in Garbage }
                           \cup { RangeOf(<< AltOf(<<f>>), AltOf(<<g>>) >>) : g \in Garbage }
                           \cup { RangeOf(<< AltOf(<<g>>) >>) : g \in Garbage }
@@ -134,6 +135,13 @@ AstOfIv(iv) ==
       U == IF up.k = "unb" THEN <<>> ELSE << CmpOf(IF up.k = "inc" THEN "<=" ELSE "<", PV(up.v)) >>
   IN IF lo.k = "inc" /\ up.k = "inc" /\ VEq(lo.v, up.v) THEN AltOf(<< CmpOf("", PV(lo.v)) >>)
      ELSE AltOf(L \o U)
+\* the byte-level parser of RangeText.tla reads back every rendered tree: determined, and with the same meaning
+InvParseRender ==
+  Ready => LET pr == ParseRangeText(RenderRange(r)) IN
+           /\ pr.det
+           /\ NoValid(pr.ast) = NoValid(r)
+           /\ \A v \in PFor(r) : Means(pr.ast, v) <=> Means(r, v)
+           /\ (Len(r.alts) = 1 => Tags(pr.ast.alts[1]) = Tags(r.alts[1]))
 InvPrintRoundTrip ==
   Ready => LET F == FoldRange(r) IN
            \A i \in 1..Len(F) :
